@@ -4,6 +4,11 @@
 (* <meta> sniffing can read ahead and seek back.  State b = [buf, pi, po]: self.buffer,        *)
 (* self.position[0] (0-based, -1 before the first read), self.position[1].                     *)
 (* Intended behaviour: indistinguishable from a seekable file over the same bytes.             *)
+(* ASSUMED: seek() is only called after at least one read() (seek on the empty buffer raises   *)
+(* IndexError in the code; HTMLBinaryInputStream always sniffs the BOM first), and BOM         *)
+(* sniffing itself (detectBOM: one read(4), no loop) is outside this model: the harness lets   *)
+(* a short-read byte source return the first 4 bytes in one read when the BOM declares the     *)
+(* encoding.                                                                                   *)
 EXTENDS Unicode
 
 BInit == [buf |-> <<>>, pi |-> -1, po |-> 0]
